@@ -375,8 +375,17 @@ def tx_oracle(case):
     reset = False
     reset_acked = False
     ever = False
+    outstanding = []    # emitted frames without outcome
     for i, op in enumerate(case["ops"]):
         k = op[0]
+        if k == "deliv":
+            fr = (op[2], op[3], bool(op[4]))
+            if fr not in outstanding:
+                return None   # not a legitimate history (outcome for a frame that is not outstanding): not judged
+            if not reset:
+                outstanding.remove(fr)
+        if k in ("getreset", "rdeliv") and not reset:
+            return None
         if k == "write":
             if eof or reset:
                 return None
@@ -417,6 +426,7 @@ def tx_oracle(case):
                     state[j] = "o"
                 if f.fin:
                     fin_state = "o"
+                outstanding.append((f.offset, end, bool(f.fin)))
         elif k == "deliv" and not reset:
             for j in range(op[2], op[3]):
                 if state[j] != "a":
